@@ -318,6 +318,13 @@ class StreamIO:
         Close connection.
         """
         self.writer.close()
+        if self.write_timeout is not None:
+            # closing waits until unsent data is flushed; peer which does
+            # not read must not hold the socket longer than a write may take
+            transport = self.writer.transport
+            if transport.get_write_buffer_size():
+                loop = asyncio.get_running_loop()
+                loop.call_later(self.write_timeout, transport.abort)
 
 
 class Throttle:
